@@ -136,6 +136,50 @@ CmpSpec(x, y) ==
 Spec_Cmp(ctx, x, y) ==
   LET v == CmpSpec(x, y) IN FinOut(v < 0, IF v = 0 THEN <<>> ELSE One, 0, 0)
 
+
+\* ---- special-value prologues of the root / transcendental functions (C08) ----
+\* For finite, non-special arguments the verdict comes from Roots / Transc; here: Skip.
+IsIntD(y) == y.f = FIN /\ (y.e >= 0 \/ IsZero(ModPow10(y.c, -y.e)))
+IsOddIntD(y) == IsIntD(y) /\ (IF y.e > 0 THEN FALSE ELSE IsOdd(DropDigits(y.c, -y.e)[1]))
+
+Special_Sqrt(x) ==
+  IF IsInf(x) THEN (IF x.n THEN NaNOut(FALSE, TRUE, F_INVALID) ELSE InfOut(FALSE, 0))
+  ELSE IF ZeroD(x) THEN FinOut(x.n, <<>>, 0, 0)
+  ELSE IF x.n THEN NaNOut(FALSE, TRUE, F_INVALID)
+  ELSE Skip
+Special_Cbrt(x) ==
+  IF IsInf(x) THEN (IF x.n THEN Skip ELSE InfOut(FALSE, 0))          \* Cbrt(-Inf): not defined by GDA (DESIGN 3.4-7)
+  ELSE IF ZeroD(x) THEN FinOut(x.n, <<>>, 0, 0)
+  ELSE Skip
+Special_Exp(x) ==
+  IF IsInf(x) THEN (IF x.n THEN FinOut(FALSE, <<>>, 0, 0) ELSE InfOut(FALSE, 0))
+  ELSE IF ZeroD(x) THEN FinOut(FALSE, One, 0, 0)
+  ELSE Skip
+Special_Log(x) ==           \* Ln and Log10
+  IF ZeroD(x) THEN InfOut(TRUE, 0)
+  ELSE IF x.n THEN NaNOut(FALSE, TRUE, F_INVALID)
+  ELSE IF IsInf(x) THEN InfOut(FALSE, 0)
+  ELSE IF CmpMag(x.c, x.e, One, 0) = 0 THEN FinOut(FALSE, <<>>, 0, 0)
+  ELSE Skip
+\* the GDA power table
+Special_Pow(x, y) ==
+  LET oddneg == x.n /\ IsOddIntD(y) IN
+  IF ZeroD(y) THEN (IF ZeroD(x) THEN NaNOut(FALSE, TRUE, F_INVALID) ELSE FinOut(FALSE, One, 0, 0))
+  ELSE IF IsInf(x) THEN
+       (IF x.n /\ ~IsIntD(y) THEN NaNOut(FALSE, TRUE, F_INVALID)
+        ELSE IF y.n THEN FinOut(oddneg, <<>>, 0, 0) ELSE InfOut(oddneg, 0))
+  ELSE IF ZeroD(x) THEN
+       (IF IsInf(y) THEN (IF y.n THEN InfOut(FALSE, 0) ELSE FinOut(FALSE, <<>>, 0, 0))
+        ELSE IF x.n /\ ~IsIntD(y) THEN Skip
+        ELSE IF y.n THEN InfOut(oddneg, 0) ELSE FinOut(oddneg, <<>>, 0, 0))
+  ELSE IF IsInf(y) THEN
+       (IF x.n THEN NaNOut(FALSE, TRUE, F_INVALID)
+        ELSE LET m == CmpMag(x.c, x.e, One, 0) IN
+             IF m = 0 THEN FinOut(FALSE, One, 0, 0)
+             ELSE IF (m > 0) = ~y.n THEN InfOut(FALSE, 0) ELSE FinOut(FALSE, <<>>, 0, 0))
+  ELSE IF x.n /\ ~IsIntD(y) THEN NaNOut(FALSE, TRUE, F_INVALID)
+  ELSE Skip
+
 UnaryOps == {"abs", "neg", "round", "quantize", "tointx", "tointv", "ceil", "floor", "reduce",
              "sqrt", "cbrt", "exp", "ln", "log10"}
 
@@ -160,6 +204,11 @@ Want(op, ctx, x, y, q) ==
          [] op = "ceil" -> Spec_CeilFloor(ctx, x, TRUE)
          [] op = "floor" -> Spec_CeilFloor(ctx, x, FALSE)
          [] op = "cmp" -> Spec_Cmp(ctx, x, y)
+         [] op = "sqrt" -> Special_Sqrt(x)
+         [] op = "cbrt" -> Special_Cbrt(x)
+         [] op = "exp" -> Special_Exp(x)
+         [] op \in {"ln", "log10"} -> Special_Log(x)
+         [] op = "pow" -> Special_Pow(x, y)
          [] OTHER -> Skip
 
 \* ------------------------------------------------------------------------
@@ -177,13 +226,16 @@ FlagsOK(op, w, got, fl) ==
   LET dec == CASE op = "quantize" -> Decided \ {F_SUBN}          \* DESIGN 3.4-10
                [] op \in {"tointx", "tointv"} -> Decided \ {F_SUBN, F_UNF}
                [] op \in {"ceil", "floor"} -> {F_DIVUNDEF, F_DIVZERO, F_DIVIMP}
+               [] op = "pow" -> {F_DIVUNDEF, F_DIVZERO, F_DIVIMP, F_INVALID}       \* 1**Inf is Inexact in GDA: not decided here
                [] OTHER -> Decided
       wfl == IF op = "tointv" /\ Bit(w.fl, F_INEXACT) THEN w.fl - F_INEXACT ELSE w.fl
   IN /\ w.k # "skip" => \A b \in dec : Bit(fl, b) = Bit(wfl, b)
+     /\ (op = "tointv" => ~Bit(fl, F_ROUNDED) /\ ~Bit(fl, F_INEXACT))
+\* the implications C02 states between conditions
+FlagImpOK(got, fl) ==
      /\ (got.f = FIN /\ Bit(fl, F_INEXACT)) => Bit(fl, F_ROUNDED)
      /\ Bit(fl, F_OVF) => Bit(fl, F_INEXACT)
      /\ Bit(fl, F_UNF) => (Bit(fl, F_SUBN) /\ Bit(fl, F_INEXACT))
-     /\ (op = "tointv" => ~Bit(fl, F_ROUNDED) /\ ~Bit(fl, F_INEXACT))
 
 \* C07: a finite result fits the context
 Fits(ctx, got) ==
